@@ -490,11 +490,17 @@ def silf_table(spec):
         sub += pass_bytes(p, classes, nglyphs, len(sub))
     offs.append(len(sub))
     sub = sub[:opasses_at] + b''.join(u32(o) for o in offs) + sub[opasses_at + 4 * (npass + 1):]
-    if version >= 0x00030000:
-        tbl = u32(version) + u32(spec.get('compiler_version', 0x00050000)) + u16(1) + u16(0) + u32(16)
-    else:
-        tbl = u32(version) + u16(1) + u16(0) + u32(12)
-    return tbl + sub
+    # 'silf_subtables': n > 1 writes n Silf sub-tables; the extra ones are copies of the first whose extraAscent is 0x100 * k (offsets inside a
+    # sub-table are relative to its start, so a copy is valid anywhere).  The engine uses sub-table 0 for every script.
+    nsubt = max(1, int(spec.get('silf_subtables', 1)))
+    ea = 10 if version >= 0x00030000 else 2
+    subs = [sub] + [sub[:ea] + i16(0x100 * k) + sub[ea + 2:] for k in range(1, nsubt)]
+    hdr = u32(version) + (u32(spec.get('compiler_version', 0x00050000)) if version >= 0x00030000 else b'') + u16(nsubt) + u16(0)
+    at = len(hdr) + 4 * nsubt
+    offs = []
+    for sb in subs:
+        offs.append(at); at += len(sb)
+    return hdr + b''.join(u32(o) for o in offs) + b''.join(subs)
 
 def build_tables(spec):
     gl = spec['glyphs']
